@@ -1383,8 +1383,10 @@ MANIFEST = {
             "sampler runs) and a direct oracle that recomputes the likelihood of every returned sample, compares every public route "
             "to the best fit on the same object and replays use - change - use again histories of the search, initializer and Samples "
             "objects; the Samples object with its `_instance` cache and its derived objects is a Coq state machine (Machine.v): every "
-            "answer of every history equals the fresh answer for every sound cache policy, partial for the pinned code (no "
-            "with_paths / without_paths after `instance`), refuted with a witness otherwise (known finding samples-copy-keeps-instance)",
+            "answer of every history equals the fresh answer for every sound cache policy (since 5bdf198 `Samples.__copy__` drops the "
+            "cached instance, which is such a policy); the `_code_partial` / `copy_keeps_instance_refuted` theorems describe the tree "
+            "before that repair (former finding samples-copy-keeps-instance, fixed; a recurrence is reported by the `derived-instance` "
+            "oracle clause as a VIOLATION)",
     "note": "Trusted: Coq kernel + vm_compute, primitive floats, the correspondence harness, numpy.exp / prior objects as oracle "
             "tables. The third-party samplers are hypotheses (sampler contracts) plus end-to-end runs; zeus / nautilus / ultranest "
             "are not installed and are exercised through fake internals only. Theorems are over exact arithmetic.",
